@@ -567,7 +567,8 @@ def c09(rec):
         # racing callers: every one got an executor and its task completed
         for o in rec.ops:
             if o["op"][0] == "reuse" and (o["exc"] is not None or not o["returned"]):
-                out.append(dict(signature=f"C09:racing-get-failed|cause={c}",
+                out.append(dict(signature=f"C09:racing-get-failed:{(o['exc'] or ['not-returned'])[0]}"
+                                          f"|cause={c}",
                                 msg=f"get_reusable_executor raised {o['exc']} in thread {o['t']}"))
         for key, f in rec.fut.items():
             exp = expected(rec.values[key][0], key, rec.values[key][1:])
